@@ -2449,6 +2449,9 @@ class TypeEnv:
             if m in ('copy', 'union', 'intersection', 'difference'):
                 return ct
             if m in ('get',):
+                if ct[0] == 'dict' and len(e.args) == 2:
+                    dt = self.type_of(e.args[1])          # with a default: a value or that default, no None of its own
+                    return dt if ct[2][0] == 'any' and dt[0] in ('list', 'set', 'dict', 'str', 'tuple') else union([ct[2], dt])
                 return t_opt(ct[2]) if ct[0] == 'dict' else ANY
             if m in ('values',):
                 return t_list(ct[2]) if ct[0] == 'dict' else ANY
